@@ -25,6 +25,9 @@ func genC09(r *Rng, tier string, idx int) *Plan {
 	nid := func() int { id++; return id }
 	mode := []string{"fresh", "expired", "midlogin", "sequential", "faulty-logout"}[idx%5]
 	p.Mode = mode
+	if r.Chance(0.3) {
+		p.Ops = append(p.Ops, Op{ID: nid(), Kind: "client", B: 0, Args: map[string]string{"noise": r.Pick([]string{"darkmode; lang=en", ";; a=b", "consent", "theme=dark"})}})
+	}
 	switch mode {
 	case "fresh", "expired", "faulty-logout":
 		p.Ops = append(p.Ops, Op{ID: nid(), Kind: "nav", Path: target})
